@@ -12,6 +12,7 @@ by every `step`), all connection identifiers, packets and histories.
 import Mqtt.Proofs.BrokerQosFifo
 import Mqtt.Proofs.BrokerQosHistory
 import Mqtt.Proofs.BrokerQosPersist
+import Mqtt.Proofs.BrokerQosSpec
 import Mqtt.Properties.C13
 
 namespace Mqtt.Properties.C02
@@ -507,5 +508,64 @@ example :
     bound (step b3 (.first 4 (connectPkt [97] true) true)).1 4 3 = true ∧
     pub2inOf (step b3 (.first 4 (connectPkt [97] true) true)).1 3 = [] := by
   decide
+
+/-! ## The reference broker agrees
+
+`Spec/Broker.lean` (written from MQTT 3.1.1, not from the code) keeps the open
+exchanges of a connection as `open2 : List (id, PUBREL seen, first PUBLISH)`.
+`toOpen2` reads the model's queue that way. -/
+
+open Mqtt.Spec.Broker in
+/-- Step simulation on the QoS 2 part: if the reference broker's `open2` of
+connection `c` is the model's queue, then on a QoS 2 PUBLISH both answer exactly
+`[PUBREC id]`, on a PUBREL the model hands on `releaseAll` of the released entries
+and the reference broker accepts exactly their contents in the same order, both
+followed by `PUBCOMP id` — and afterwards `open2` is again the model's queue. -/
+theorem C02_reference_open2 (b : B) (hI : BInv b) (c : Nat) (hl : b.alive c = true) (s : Sess)
+    (hs : sessOf b c = some s) (ss : S) (scn : Spec.Broker.Conn) (hc : getConn ss c = some scn)
+    (ho : scn.open2 = toOpen2 s.pub2in) :
+    (∀ p : Pub, p.qos = 2 →
+      (packet b c (.publish p)).2 = [.send c (.pubrec p.pktid)] ∧
+      (step1 ss (.packet c (.publish p))).2 = [.send c (.pubrec p.pktid)] ∧
+      ∃ s' scn', sessOf (packet b c (.publish p)).1 c = some s' ∧
+        getConn (step1 ss (.packet c (.publish p))).1 c = some scn' ∧ scn'.open2 = toOpen2 s'.pub2in) ∧
+    (∀ id : Nat,
+      let rel := (q2Acked (q2Ack s.pub2in id)).2
+      let rest := (q2Acked (q2Ack s.pub2in id)).1
+      (packet b c (.pubrel id)).2 =
+        (releaseAll (b.setSess { s with pub2in := rest }) rel).2 ++ [.send c (.pubcomp id)] ∧
+      (step1 ss (.packet c (.pubrel id))).2 =
+        (specReleaseAll (setConn ss { scn with open2 := toOpen2 rest }) (rel.map (·.msg))).2 ++
+          [.send c (.pubcomp id)] ∧
+      ∃ s' scn', sessOf (packet b c (.pubrel id)).1 c = some s' ∧
+        getConn (step1 ss (.packet c (.pubrel id))).1 c = some scn' ∧ scn'.open2 = toOpen2 s'.pub2in) := by
+  constructor
+  · intro p hq
+    obtain ⟨s0, h0, h1, h2, _⟩ := C02_qos2_publish b hI c hl p hq
+    rw [hs] at h0; cases h0
+    obtain ⟨g1, scn', g2, g3⟩ := spec_publish2 ss c scn s.pub2in p hc ho hq
+    exact ⟨by rw [h1], g1, _, scn', h2, g2, g3⟩
+  · intro id
+    obtain ⟨s0, h0, h1, _, _, h4, _⟩ := C02_pubrel b hI c hl id
+    rw [hs] at h0; cases h0
+    obtain ⟨g1, scn', g2, g3⟩ := spec_pubrel ss c scn s.pub2in id hc ho
+    exact ⟨by rw [h1], g1, _, scn', h4, g2, g3⟩
+
+/-- the hypotheses are met along a run of both machines: after the demo events,
+two QoS 2 PUBLISHes and an out-of-order PUBREL on connection 2, the reference
+broker's `open2` is the model's queue (5 waiting, 6 marked) -/
+example :
+    let evs : List Ev := demoEvs ++
+      [.packet 2 (.publish { qos := 2, topic := [116], pktid := 5, payload := [1] }),
+       .packet 2 (.publish { qos := 2, topic := [116], pktid := 6, payload := [3] }),
+       .packet 2 (.pubrel 6)]
+    let b := (run {} evs).1
+    let ss := evs.foldl (fun s e => (Mqtt.Spec.Broker.step s e).1) {}
+    b.alive 2 = true ∧
+    (Mqtt.Spec.Broker.getConn ss 2).map (·.open2) = (sessOf b 2).map (fun s => toOpen2 s.pub2in) ∧
+    (sessOf b 2).map (fun s => toOpen2 s.pub2in) =
+      some [(5, false, { qos := 2, topic := [116], pktid := 5, payload := [1] }),
+            (6, true, { qos := 2, topic := [116], pktid := 6, payload := [3] })] := by
+  decide +kernel
 
 end Mqtt.Properties.C02
